@@ -343,6 +343,8 @@ class Ctx:
         self.events = 0
         self.traces = 0
         self.violations = []    # (event, why, source)
+        self.beyond = []        # (event, why, source): observations beyond the statement
+        self.beyond_checked = 0
         self.known_hits = {}    # id -> count
         self.samples = []
         self.cover = {}
@@ -460,8 +462,13 @@ class Ctx:
         self.traces += 1
         events = None
         badidx = {b["i"]: b["why"] for b in v["bad"]}
+        # observations beyond the property's statement (reported, never a violation)
+        bydidx = {b["i"]: b["why"] for b in v.get("beyond", [])}
+        self.beyond_checked += v.get("beyond_checked", 0)
         with open(trace) as f:
             for i, line in enumerate(f, 1):
+                if i in bydidx:
+                    self.beyond.append((_shorten(json.loads(line)), bydidx[i], name))
                 need = i in badidx or len(self.samples) < 3 or nontrivial or cover
                 if not need:
                     continue
@@ -520,6 +527,15 @@ class Ctx:
             "scope": self.scope, "known_findings_observed": self.known_hits, "drift": self.drift,
             "new_violations": len(new),
         }
+        if self.beyond_checked or self.beyond:
+            cov["beyond_property"] = {"checked": self.beyond_checked, "mismatches": len(self.beyond),
+                                      "samples": [{"why": w, "source": s_, "event": e} for e, w, s_ in self.beyond[:3]],
+                                      "note": "observations about behaviour the property does not state; never a violation"}
+            byw = {}
+            for _, w, _s in self.beyond:
+                byw[w] = byw.get(w, 0) + 1
+            for w, n in sorted(byw.items()):
+                lines.append("BEYOND-PROPERTY: property=%s %s (%d event(s); not part of the statement, no verdict)" % (self.prop, w, n))
         if extra:
             cov.update(extra)
         ev = {"property_id": self.prop, "tier": self.tier, "seed": self.seed, "level": level, "coverage": cov,
